@@ -80,9 +80,11 @@ class WalkPolicy:
         return order[k % len(order)]
 
 
-def policy_quiet(policy):
+def policy_quiet(policy, sched=None):
     """True when the policy will never again switch away from a running
     thread that stays enabled (so the current thread runs until it parks)."""
+    if sched is not None and getattr(sched, 'has_line_preemption', False):
+        return False
     if isinstance(policy, WalkPolicy):
         return all(k == 0 for k in policy.choices[policy.i:])
     if isinstance(policy, PreemptPolicy):
@@ -376,12 +378,14 @@ class Scheduler:
             # only possible through an interrupt
             if c.kbi_at is not None and self.step >= c.kbi_at:
                 c.kbi_at = None
-                self.kbi_delivered.append((self.step, what, policy_quiet(self.policy)))
+                self.kbi_delivered.append((self.step, what,
+                                           policy_quiet(self.policy, self)))
                 raise KeyboardInterrupt()
             raise HarnessError('resumed with false predicate')
         if interruptible and c.kbi_at is not None and self.step >= c.kbi_at:
             c.kbi_at = None
-            self.kbi_delivered.append((self.step, what, policy_quiet(self.policy)))
+            self.kbi_delivered.append((self.step, what,
+                                           policy_quiet(self.policy, self)))
             raise KeyboardInterrupt()
 
     def yield_(self, what='yield'):
@@ -856,6 +860,8 @@ class LinePreempter:
         self.at = set(int(x) for x in at)
         self.n = 0
         self.active = False
+        if self.at:
+            sched.has_line_preemption = True
 
     def __enter__(self):
         import sys
